@@ -381,6 +381,14 @@ func main() {
 	if th {
 		ctxs = append(ctxs, Ctx{Hex: "0000"}, Ctx{Hex: hx(mc.Fill(r.Seed, "c15-ctx-79", 79))}, Ctx{Hex: hx(mc.Fill(r.Seed, "c15-ctx-80", 80))})
 	}
+	// context lengths at which blind(32) || 00 || context crosses a SHA-512 block / padding boundary
+	// (33+95 = 128, 33+79 = 112, 33+223 = 256), each in two variants that differ in the last byte only
+	for _, n := range mc.Pick(r, []int{78, 79, 95, 96, 97}, []int{78, 79, 80, 94, 95, 96, 97, 111, 127, 128, 222, 223, 224}) {
+		c := mc.Fill(r.Seed, "c15-ctx-boundary", n)
+		c2 := append([]byte{}, c...)
+		c2[n-1] ^= 0x01
+		ctxs = append(ctxs, Ctx{Hex: hx(c)}, Ctx{Hex: hx(c2)})
+	}
 	msgLens := []int{0, 64, 1000}
 	var msgs []string
 	for _, n := range msgLens {
